@@ -666,3 +666,40 @@ Proof.
     constructor; [|constructor]. unfold noslash in Hv. rewrite Forall_forall in Hv. apply Hv. apply nth_In. apply Nat.leb_le in El. lia.
   - destruct (lookup d (parse_host auth)) as [v|] eqn:E; [eapply lookup_noslash; eassumption|constructor].
 Qed.
+
+(* ---------------------------------------------------------------- C20: alias.url replaces exactly the matched prefix, first rule in order *)
+Lemma find_key_first al s k v : find_key al s = Some (k, v) ->
+  exists al1 al2, al = al1 ++ (k, v) :: al2 /\ prefixb k s = true /\ forall k' v', In (k', v') al1 -> prefixb k' s = false.
+Proof.
+  induction al as [|[k0 v0] al IH]; [discriminate|]. cbn [find_key]. destruct (prefixb k0 s) eqn:E.
+  - intro H. inversion H; subst. exists [], al. split; [reflexivity|]. split; [exact E|]. intros k' v' [].
+  - intro H. destruct (IH H) as (al1 & al2 & -> & Hp & Hf). exists ((k0, v0) :: al1), al2. split; [reflexivity|]. split; [exact Hp|].
+    intros k' v' [Hin|Hin]; [inversion Hin; subst; exact E|eapply Hf; exact Hin].
+Qed.
+
+Theorem alias_replaces_exactly_the_matched_prefix al basedir pre uri p b :
+  length pre = (length basedir - (if ends_slash_b basedir then 1 else 0))%nat -> uri <> [] ->
+  alias_remap al basedir (pre ++ uri) = AliasTo p b ->
+  exists al1 k al2 rest, al = al1 ++ (k, b) :: al2 /\ (forall k' v', In (k', v') al1 -> prefixb k' uri = false)
+                         /\ uri = k ++ rest /\ p = b ++ rest.
+Proof.
+  intros Hlen Hne. unfold alias_remap. rewrite <- Hlen.
+  assert (E1 : is_nil (pre ++ uri) = false) by (destruct pre; [destruct uri; [contradiction|reflexivity]|reflexivity]). rewrite E1.
+  assert (E2 : (length (pre ++ uri) <? length pre)%nat = false) by (apply Nat.ltb_ge; rewrite app_length; lia). rewrite E2. cbn [orb].
+  rewrite skipn_app, skipn_all, Nat.sub_diag. cbn [skipn app].
+  destruct (find_key al uri) as [[k v]|] eqn:Ef; [|discriminate].
+  apply find_key_first in Ef as (al1 & al2 & Hal & Hp & Hf). apply prefixb_spec in Hp.
+  match goal with |- (if ?c then _ else _) = _ -> _ => destruct c end; [discriminate|].
+  intro H. inversion H; subst p b. exists al1, k, al2, (skipn (length k) uri). repeat split; assumption.
+Qed.
+
+(* the documented example of mod_evhost: sub2.sub1.domain.tld *)
+Example evhost_documented_pieces :
+  let host := [115;117;98;50;46;115;117;98;49;46;100;111;109;97;105;110;46;116;108;100;58;56;48] in      (* "sub2.sub1.domain.tld:80" *)
+  lookup 0 (parse_host host) = Some [100;111;109;97;105;110;46;116;108;100]                              (* %0 = domain.tld *)
+  /\ lookup 1 (parse_host host) = Some [116;108;100]                                                     (* %1 = tld *)
+  /\ lookup 2 (parse_host host) = Some [100;111;109;97;105;110]                                          (* %2 = domain *)
+  /\ lookup 3 (parse_host host) = Some [115;117;98;49]                                                   (* %3 = sub1 *)
+  /\ lookup 4 (parse_host host) = Some [115;117;98;50]                                                   (* %4 = sub2 *)
+  /\ lookup 5 (parse_host host) = None.
+Proof. vm_compute. repeat split; reflexivity. Qed.
